@@ -8,3 +8,5 @@ import GeoVerif.Model.GridCodes
 import GeoVerif.Corr.C18
 import GeoVerif.Model.UTMUPS
 import GeoVerif.Corr.C04
+import GeoVerif.Model.MGRS
+import GeoVerif.Corr.C05
